@@ -92,7 +92,7 @@ impl Property for C16 {
     fn rule(&self) -> &'static str {
         "case = byte string decoded by one executor source into a deterministic scenario of 3-24 API calls: create scalar metrics \
          (6 kinds) and vectors (5 kinds) with generated options (some invalid), update them (exact values and arbitrary f64), \
-         create/remove/reset vector children, create registries (valid and invalid prefix / common labels), register / unregister, \
+         create/remove/reset vector children, create registries (valid and invalid prefix / common labels, some repeating a metric's own label name and value), register / unregister, \
          custom collectors injecting families built through the setters both data models share (all four printable types, \
          timestamps, summaries, unset type/help), gather and encode (encode, encode_utf8, encode_to_string). The same source is \
          compiled against prometheus with default features (in-process) and with --no-default-features (long-lived child process); \
